@@ -72,6 +72,9 @@ func c19Configs(w *vfWorld, idp2 *vfIdP, htp string) []c19Cfg {
 		{Name: "alpha-all-claims", Alpha: c19HeaderYAML(), Flags: append([]string{"--htpasswd-file=" + htp, "--skip-auth-route=^/public"}, bearer...)},
 		{Name: "alpha-all-claims-redis", Alpha: c19HeaderYAML(), Flags: append([]string{"--htpasswd-file=" + htp, "--session-store-type=redis", "--skip-auth-route=^/public", "--cookie-csrf-per-request=true"}, bearer...), Redis: true},
 	}
+	// reverse-proxy mode WITHOUT trusted IPs (and without bypass rules): the trusted-IP machinery must cope with being unconfigured
+	cfgs = append(cfgs, c19Cfg{Name: "reverse-proxy/no-trusted-ip", Flags: []string{"--reverse-proxy=true", "--real-client-ip-header=X-Real-IP"}},
+		c19Cfg{Name: "reverse-proxy/no-trusted-ip-xff-redis", Flags: []string{"--reverse-proxy=true", "--real-client-ip-header=X-Forwarded-For", "--session-store-type=redis", "--cookie-samesite=none"}, Redis: true})
 	for _, h := range []string{"X-Forwarded-For", "X-Real-IP", "X-ProxyUser-IP", "X-Envoy-External-Address", "CF-Connecting-IP"} {
 		cfgs = append(cfgs, c19Cfg{Name: "reverse-proxy/" + h, Flags: []string{"--reverse-proxy=true", "--real-client-ip-header=" + h, "--trusted-ip=10.0.0.0/8", "--trusted-ip=::1", "--whitelist-domain=.good.test", "--cookie-domain=.test", "--skip-auth-route=^/public", "--request-logging=true", "--auth-logging=true", "--standard-logging=true"}})
 	}
@@ -591,6 +594,22 @@ func TestVerif_C19(t *testing.T) {
 						}
 						jobs = append(jobs, job{ch, f.Name})
 					}
+				}
+			}
+		}
+		// phase 1b: systematic PAIRS of fields that are consumed together (peer address x client-IP header,
+		// forwarded host x proto, forwarded URI x path, host x forwarded host)
+		byName := map[string][]string{}
+		for _, f := range fields {
+			byName[f.Name] = f.Vals
+		}
+		for _, pr := range [][3]string{{"remote", "clientip", "/x"}, {"remote", "clientip", "/oauth2/callback"}, {"xfh", "xfp", "/oauth2/start"}, {"xfh", "xfp", "/oauth2/sign_out"}, {"xfu", "xfh", "/oauth2/auth"}, {"host", "xfh", "/x"}, {"xfu", "rd", "/oauth2/start"}} {
+			for _, a := range byName[pr[0]] {
+				for _, b := range byName[pr[1]] {
+					if len(a) > 500 || len(b) > 500 {
+						continue
+					}
+					jobs = append(jobs, job{c19Choice{pr[0]: a, pr[1]: b, "path": pr[2]}, pr[0] + "+" + pr[1]})
 				}
 			}
 		}
